@@ -689,3 +689,12 @@ SPECS["C01"]["contracts"] += [f"smpl_extract.akai.volume:VolumesAdapter._decode_
 SPECS["C01"]["level_text"] += ("; VolumesAdapter._decode_element (1..3 table entries): one volume per ACTIVE entry in table order, under its name below the partition's path, its file table read from "
                                "the chain at its own start sector of this partition's table")
 SPECS["C01"]["not_covered"] = ["FileEntriesAdapter / PartitionAdapter context passing (construct plumbing: `this._.sat`, Lazy, Computed file streams)"]
+
+# C16: write-set census (whole-package frame argument, syntactic): every site that can make state outlive a call carries a listed reason
+SPECS["C16"]["post_scan"] = "write_set_census"
+SPECS["C16"]["level_text"] += ("; WRITE-SET CENSUS on every run: all 40 syntactic sites of the package that can make state outlive a call (attribute stores outside constructors, "
+                               "mutations of parameters / aliases / globals, class-level mutables, mutable defaults, setattr) are listed in checks/write_set.json with the reason they cannot make a "
+                               "later ls / export depend on an earlier one (memo of a function of the image bytes; per-action routine table; export-manager scratch; view cursors; parse-context "
+                               "plumbing; call-local lists); a site in the tree without a listed reason is reported as UNDECIDED")
+SPECS["C16"]["not_covered"] = ["that each listed memo really is a function of the image bytes alone is argued per site (checks/write_set.json), machine-checked only where the function is under contract",
+                               "the .pyx filter classes (C19 covers their reset)"]
